@@ -6,5 +6,6 @@ CONSTANTS
   TreeWidth = 0
   RichScalars = FALSE
   ShortLimit = 120
+  KeysLimit = 2000
 POSTCONDITION TraceDone
 CHECK_DEADLOCK FALSE
